@@ -1,5 +1,6 @@
 import FtdcVerif.Lemmas.RecorderTS
 import FtdcVerif.Gen.Facts
+import FtdcVerif.Lemmas.LockSound
 /-!
 # C16 — concurrent recorders neither deadlock nor lose updates
 
@@ -18,6 +19,21 @@ open Ftdc.RecorderTS Ftdc.LockSkeleton
 
 /-- **every function that acquires a lock releases it on every return path** (regenerated) -/
 theorem all_lock_balanced : Ftdc.Gen.lockSkeletons.all (fun p => balanced p.2) = true := by decide
+
+/-- what `all_lock_balanced` means, by the soundness of the checker (`balanced_sound`, against an
+independent path semantics: a branch runs one alternative, a loop body any number of times): no
+method that takes a mutex has a path — whichever branches are taken, however often its loops run —
+that unlocks a mutex it does not hold, returns with the mutex held, or falls off its end with it -/
+theorem every_path_releases_the_mutex (name : String) (k : Sk) (hm : (name, k) ∈ Ftdc.Gen.lockSkeletons)
+    (o : Out) (hr : Run k (0, 0) o) :
+    match o with
+    | .stuck => False
+    | .returned s => retOk s = true
+    | .fell s => retOk s = true := by
+  have hb : balanced k = true := by
+    have := List.all_eq_true.1 all_lock_balanced (name, k) hm
+    simpa using this
+  exact balanced_sound k hb o hr
 
 /-- the extraction is not empty: both flushers and the wrappers are in it -/
 theorem skeletons_present : 40 ≤ Ftdc.Gen.lockSkeletons.length := by decide
